@@ -669,7 +669,9 @@ class FitsSim:
         form = rs.choice(k["forms"])
         if role == "hdu" or (role == "writer" and rs.random() < 0.15):
             if obj.kind == "imaging":
-                return None
+                order = [0, 1, 2]
+                rs.shuffle(order)
+                return {"op": "imaging_one_file", "client": client["name"], "obj": oid, "order": order}
             r = rs.random()
             if r < 0.5:
                 return {"op": "hdu_rt", "client": client["name"], "obj": oid}
@@ -1295,6 +1297,44 @@ class FitsSim:
             self.report("hdu_roundtrip_mismatch", obj.cls_name, "from_primary_hdu(fits.open(file)[0])", cond, "returns the object's values", "raises " + type(e).__name__ + ": " + str(e)[:120], step)
             return True
         self.log.append(ev="hdu_file", obj=obj.cls_name, flip=self.flip, outcome=compare.digest(back_tree))
+        return True
+
+    def do_imaging_one_file(self, op, step):
+        """The three arrays of an imaging dataset as extensions of ONE file (assembled by the harness from the library's own
+        HDUs, in a seeded order), read back with Imaging.from_fits(data_hdu=i, noise_map_hdu=j, psf_hdu=k)."""
+        import autoarray as aa
+        from astropy.io import fits
+
+        obj = self.objs.get(op["obj"])
+        if obj is None or obj.kind != "imaging":
+            return False
+        d = os.path.join(self.root, "__harness__")
+        os.makedirs(d, exist_ok=True)
+        p = os.path.join(d, f"i{step}.fits")
+        parts = [obj.obj.data, obj.obj.noise_map, obj.obj.psf]
+        order = op.get("order", [0, 1, 2])
+        hdus = []
+        for pos, which in enumerate(order):
+            h = parts[which].hdu_for_output
+            hdus.append(fits.PrimaryHDU(h.data, header=h.header) if pos == 0 else fits.ImageHDU(h.data, header=h.header))
+        fits.HDUList(hdus).writeto(p, overwrite=True)
+        where = {which: pos for pos, which in enumerate(order)}
+        cond = {"route": "file", "flip": self.flip, "hdus": order}
+        self.stats["state_op_pairs"].add(f"imaging_one_file|{order}|flip={int(self.flip)}")
+        self.probe("imaging_one_file")
+        self.stats["checked"] += 1
+        try:
+            res = aa.Imaging.from_fits(pixel_scales=obj.pixel_scales, data_path=p, data_hdu=where[0], noise_map_path=p, noise_map_hdu=where[1], psf_path=p, psf_hdu=where[2])
+        except Exception as e:  # noqa: BLE001
+            self.log.append(ev="imaging_one_file", order=order, outcome="raises " + type(e).__name__)
+            self.report("read_must_succeed", "Imaging", "from_fits(hdu=k)", cond, "returns the dataset", "raises " + type(e).__name__ + ": " + str(e)[:120], step)
+            return True
+        self.log.append(ev="imaging_one_file", order=order, flip=self.flip, outcome=compare.digest(compare.canon(res)))
+        self._cmp_values("Imaging", "data", cond, obj.parts["data"], np.array(res.data.native), step)
+        self._cmp_values("Imaging", "noise_map", cond, obj.parts["noise"], np.array(res.noise_map.native), step)
+        psf = np.array(res.psf.native)
+        if psf.shape != obj.parts["psf"].shape or not np.allclose(psf, obj.parts["psf"], rtol=1e-12, atol=0.0):
+            self.report("read_mismatch", "Imaging", "psf", cond, repr(obj.parts["psf"].tolist()), repr(psf.tolist()), step)
         return True
 
     def do_multi_hdu(self, op, step):
